@@ -17,7 +17,8 @@ def lib_cfg(contract):
                  loop_specs=getattr(contract, 'loop_specs', None) or {},
                  unroll=getattr(contract, 'unroll', 0),
                  callable_model=getattr(contract, 'callable_model', None),
-                 hooks=getattr(contract, 'hooks', None) or {})
+                 hooks=getattr(contract, 'hooks', None) or {},
+                 branch_timeout_ms=getattr(contract, 'branch_timeout_ms', 2000))
     for q, c in (getattr(contract, 'callee_contracts', None) or {}).items():
         cfg.contracts[q] = c
     return cfg
